@@ -1,4 +1,11 @@
-"""C02 -- frequency-domain solvers (partial claim)."""
+"""C02 -- frequency-domain solvers (partial claim).
+
+R1-R5 and R8-R9 decide on *values*: the public entry points (`SolveUnc.fsolve`, `FreqDirect.fsolve`, `solvepsd`) are evaluated on symbols
+once per configuration (m None / given, real-uncoupled / complex-uncoupled / coupled, which letters are in `incrb`, rf_disp_only) by
+`c02_sem.PathEval`, which follows the helpers of the class and of the module, decides every test by its value and records every store
+into d, v, a as a cell (array identity, evaluated index, stored value).  The rules read that trace; how the source spells the path
+(temporaries, renamed locals, guard clauses, swapped arms, extracted or inlined helpers, module constants, np.matmul / np.negative,
+keyword arguments) is not visible in it."""
 from __future__ import annotations
 
 import ast
@@ -7,397 +14,584 @@ from . import e2_formula as F
 from . import ode_spaces as O
 from .core import AnchorError, Unsupported
 from .e1_srcmodel import dotted, walk_no_nested, parent, ancestors, utext
-from .e2_eval import Evaluator, is_unknown, need
+from .e2_eval import is_unknown, need
+from .e3_spaces import Arr, Idx
+from .sem import unfn
+from . import c02_sem as S
+from .c02_types import ValueTyper
 
 UTIL = "pyyeti/ode/_utilities.py"
-W = F.sym("W")            # circular frequency 2 pi f
-TWO_PI_F = 2 * F.sym("pi") * F.sym("freq")
+I = F.I
+PI = F.sym("pi")
+FREQ = F.sym("freq")
+W = 2 * PI * FREQ                 # circular frequency
+FORCE = F.sym("force")
+
+# ------------------------------------------------------------------------------------------------ configurations
+_BASE = {"self.nonrfsz": True, "self.cdforces": False, "self.rbsize": True, "self.elsize": True, "self.ksize": True, "self.rfsize": True,
+         "self.pre_eig": False, "incrb": True, '"d" in incrb': True, '"v" in incrb': True, '"a" in incrb': True, "rf_disp_only": False}
 
 
-def _mk_eval(ctx, m_none, extra_env=None, cond_extra=None, call_extra=None):
-    env = {"self.b": F.sym("b"), "self.k": F.sym("k"), "self.m": F.sym("m"), "freq": F.sym("freq"),
-           "force": F.sym("Frc"), "b": F.sym("b"), "k": F.sym("k"), "m": F.sym("m")}
-    if m_none:
-        env["self.m"] = None
-        env["m"] = None
-    if extra_env:
-        env.update(extra_env)
-
-    def cond(test, ev):
-        t = utext(test)
-        if t in ("self.misNone", "misNone"):
-            return m_none
-        if t in ("self.misnotNone", "misnotNone"):
-            return not m_none
-        if cond_extra:
-            return cond_extra(t)
-        return None
-
-    def call(node, ev):
-        d = dotted(node.func)
-        if d in ("la.solve", "la.lu_solve", "np.linalg.solve") and len(node.args) >= 2:
-            a, b = ev.ev(node.args[0]), ev.ev(node.args[1])
-            if is_unknown(a) or is_unknown(b):
-                return a if is_unknown(a) else b
-            return need(b) / need(a)
-        if d == "self._init_dva":
-            return (F.sym("d_"), F.sym("v_"), F.sym("a_"), ev.ev(node.args[0]))
-        if d == "np.eye":
-            return F.const(1)
-        if d == "np.ones":
-            return F.const(1)
-        if call_extra:
-            return call_extra(node, ev)
-        return NotImplemented
-
-    return Evaluator(env=env, cond=cond, src=ctx.src, call=call)
+def _identity_model(ev, node):
+    # _process_incrb(incrb): validates; returns the string form unchanged (R3 checks exactly that on its body)
+    return ev.ev(node.args[0]) if len(node.args) == 1 and not node.keywords else NotImplemented
 
 
-def _to_W(r):
-    """express a formula in W = 2 pi freq"""
-    return need(r).subs({"freq": W / (2 * F.sym("pi"))})
-
-
-def r1_dynamic_stiffness(ctx):
-    b, k, m = F.sym("b"), F.sym("k"), F.sym("m")
-    sites = []
-    # SolveUnc._solve_freq_unc
-    fn = ctx.src.func(O.UNC, "SolveUnc._solve_freq_unc")
-    for m_none in (True, False):
-        ev = _mk_eval(ctx, m_none, cond_extra=lambda t: True if t == "self.elsize" else None)
-        ev.run(fn.body)
-        st = [s for s in ev.stores if s[0] == "d"]
-        if not st:
-            ctx.error(f"_solve_freq_unc(m {'None' if m_none else 'given'}): store to d", fn)
-            continue
-        sites.append((f"SolveUnc._solve_freq_unc (m {'None' if m_none else 'given'})", st[-1][2], m_none, st[-1][3]))
-    # FreqDirect.fsolve, uncoupled and coupled
-    fn = ctx.src.func(O.FD, "FreqDirect.fsolve")
-    for unc in (True, False):
-        for m_none in (True, False):
-            ev = _mk_eval(ctx, m_none, cond_extra=lambda t, unc=unc: unc if t == "self.unc" else (False if t == "self.ksize==0" else None))
-            ev.env["self.kdof"] = F.sym("kdof")
-            # the coupled arm loops `for i, O in enumerate(Omega)`: evaluate the loop body once with O := Omega
-            body = []
-            for s in fn.body:
-                body.append(s)
-            ev2 = ev
-            ev2.run([s for s in fn.body if not isinstance(s, ast.If) or True])
-            st = [s for s in ev2.stores if s[0] == "d" and not (is_unknown(s[2]))]
-            if not unc:
-                # evaluate the loop body explicitly
-                loops = [n for n in walk_no_nested(fn) if isinstance(n, ast.For) and "enumerate(Omega)" in ast.unparse(n.iter)]
-                if not loops:
-                    ctx.error("FreqDirect.fsolve: coupled loop", fn)
-                    continue
-                om = ev2.env.get("Omega")
-                ev3 = _mk_eval(ctx, m_none)
-                ev3.env.update({k_: v for k_, v in ev2.env.items() if not is_unknown(v)})
-                if m_none:
-                    ev3.env["m"] = F.const(1)   # m = np.eye(ksize)
-                ev3.env[loops[0].target.elts[1].id] = om
-                ev3.run(loops[0].body)
-                st = [s for s in ev3.stores if s[0] == "d"]
-            if not st:
-                ctx.error(f"FreqDirect.fsolve ({'uncoupled' if unc else 'coupled'}, m {'None' if m_none else 'given'}): store to d", fn)
-                continue
-            sites.append((f"FreqDirect.fsolve ({'uncoupled' if unc else 'coupled'}, m {'None' if m_none else 'given'})",
-                          st[-1][2], m_none, st[-1][3]))
-    for tag, val, m_none, node in sites:
-        if is_unknown(val):
-            ctx.error(f"{tag}: displacement formula", node, repr(val))
-            continue
-        try:
-            H = F.sym("Frc") / _to_W(val)
-            mm = F.const(1) if m_none else m
-            want = F.I * W * b + k - W * W * mm
-            ok = H.equals(want)
-        except Unsupported as e:
-            ctx.error(f"{tag}: normal form", node, str(e))
-            continue
-        ctx.check(ok, f"{tag}: d = F / (i W b + k - W^2 m) with W = 2 pi freq", node,
-                  None if ok else {"F/d": repr(H), "want": repr(want)})
-    # coupled modal path: H = i W - lambda
-    fn = ctx.src.func(O.UNC, "SolveUnc._solve_freq_coup")
-    ev = _mk_eval(ctx, False, extra_env={"pc.lam": F.sym("lam"), "pc.ur_inv_v": F.sym("Uinv"), "pc.ur_d": F.sym("Ud"),
-                                          "self.invm": F.sym("m")},
-                  cond_extra=lambda t: True if t in ("self.ksize",) else None)
-    ev.run(fn.body)
-    H = ev.env.get("H")
-    if H is None or is_unknown(H):
-        ctx.error("_solve_freq_coup: H", fn, repr(H))
+def _entry(ctx, solver):
+    if solver == "SolveUnc":
+        fn = ctx.src.func(O.UNC, "SolveUnc.fsolve")
+        opts = S.Opts(classes=[(O.UNC, "SolveUnc"), (O.BASE, "_BaseODE")], exclude={"self._addconj", "self._delconj", "self._solution_freq"},
+                      erase_loop_index=True, models={"_process_incrb": _identity_model})
     else:
-        ok = _to_W(H).equals(F.I * W - F.sym("lam"))
-        ctx.check(ok, "SolveUnc._solve_freq_coup: modal denominator H = i W - lambda", fn, None if ok else repr(H))
-        st = [s for s in ev.stores if s[0] == "d"]
-        if st and not is_unknown(st[-1][2]):
-            want = F.sym("Ud") * (F.sym("Uinv") * F.sym("Frc") / F.sym("m")) / (F.I * W - F.sym("lam"))
-            ok = _to_W(st[-1][2]).equals(want)
-            ctx.check(ok, "SolveUnc._solve_freq_coup: d = ur_d (ur_inv_v M^-1 F / H)  (displacement rows of the right eigenvectors, "
-                          "velocity columns of the inverse)", st[-1][3], None if ok else repr(st[-1][2]))
-        else:
-            ctx.error("_solve_freq_coup: store to d", fn)
+        fn = ctx.src.func(O.FD, "FreqDirect.fsolve")
+        opts = S.Opts(classes=[(O.FD, "FreqDirect"), (O.BASE, "_BaseODE")], exclude={"self._solution_freq"},
+                      erase_loop_index=True, models={"_process_incrb": _identity_model})
+    return fn, opts
 
 
-def _derivative_sites(ctx):
+# (key, label, solver, overrides, attribute table)
+def _families():
+    U, E = O.mode_U(), O.mode_E()
     return [
-        (O.BASE, "_BaseODE._init_dva", "rf"),
-        (O.UNC, "SolveUnc._solve_freq_unc", "el"),
-        (O.UNC, "SolveUnc._solve_freq_coup", "kdof"),
-        (O.FD, "FreqDirect.fsolve", "kdof"),
+        ("su-real", "SolveUnc real uncoupled", "SolveUnc", {"self.unc": True, "self.systype is float": True}, U),
+        ("su-cplx", "SolveUnc complex uncoupled", "SolveUnc", {"self.unc": True, "self.systype is float": False}, E),
+        ("su-coup", "SolveUnc coupled", "SolveUnc", {"self.unc": False, "self.systype is float": True}, E),
+        ("fd-unc", "FreqDirect uncoupled", "FreqDirect", {"self.unc": True}, U),
+        ("fd-coup", "FreqDirect coupled", "FreqDirect", {"self.unc": False}, U),
     ]
 
 
-def r2_derivative_relations(ctx):
-    for rel, q, part in _derivative_sites(ctx):
-        fn = ctx.src.func(rel, q)
-        # find the statements  a[X] = <expr in d[X]> ; v[X] = ...
-        found = {}
-        for st in walk_no_nested(fn):
-            if isinstance(st, ast.Assign) and isinstance(st.targets[0], ast.Subscript) and isinstance(st.targets[0].value, ast.Name) \
-                    and st.targets[0].value.id in ("a", "v"):
-                tgt = st.targets[0]
-                idx = ast.unparse(tgt.slice)
-                dref = f"d[{idx}]"
-                if dref in ast.unparse(st.value):
-                    found[tgt.value.id] = (st, idx)
-        for which, factor, txt in (("v", F.I * W, "v = i W d"), ("a", -W * W, "a = -W^2 d")):
-            if which not in found:
-                ctx.fail(f"{q}: `{which}` is derived from `d` on the same partition", fn, f"no statement {which}[X] = f(d[X]) found")
-                continue
-            st, idx = found[which]
-            D = F.sym("D")
+class Run:
+    """one evaluated configuration: trace + value typer + classification of the cells by the partition their index selects"""
 
-            def sub(node, ev, idx=idx):
-                if isinstance(node.value, ast.Name) and node.value.id == "d" and ast.unparse(node.slice) == idx:
-                    return D
-                return NotImplemented
+    def __init__(self, ctx, fam, m_none, extra=None, tag=""):
+        key, label, solver, over, attrs = fam
+        self.family = key
+        self.solver = solver
+        self.m_none = m_none
+        self.label = f"{label}, m {'None' if m_none else 'given'}" + (f", {tag}" if tag else "")
+        table = dict(_BASE)
+        table.update(over)
+        table["self.m is None"] = m_none
+        if extra:
+            table.update(extra)
+        self.fn, opts = _entry(ctx, solver)
+        self.trace, self.ev = S.run_entry(ctx, self.fn, table, opts, self.label)
+        types = dict(attrs)
+        types.update({"force": Arr("N", None), "d": Arr("N", None, "d"), "v": Arr("N", None, "v"), "a": Arr("N", None, "a")})
+        self.typer = ValueTyper(types, self.trace, self.label)
+        self.coupled = over.get("self.unc") is False
 
-            ev = Evaluator(env={"freq": F.sym("freq")}, src=ctx.src, subscript=sub)
-            # definitions of freqw / freqw2 / Omega in this function
-            for s2 in walk_no_nested(fn):
-                if isinstance(s2, ast.Assign) and isinstance(s2.targets[0], ast.Name) and s2.targets[0].id in ("freqw", "freqw2", "Omega", "fw", "fw2") \
-                        and s2.lineno < st.lineno:
-                    ev.stmt(s2)
-            val = ev.ev(st.value)
-            if is_unknown(val):
-                ctx.error(f"{q}: {txt}", st, repr(val))
-                continue
-            ok = _to_W(val).equals(factor * D)
-            ctx.check(ok, f"{q}: {txt} on partition `{idx}`", st, None if ok else repr(val))
-        # both use the same partition as the d store
-        if "a" in found and "v" in found:
-            ok = found["a"][1] == found["v"][1]
-            ctx.check(ok, f"{q}: v and a are derived on the same partition", found["a"][0], nontrivial=False)
-    # rigid-body arm: a is primary;  v = a/(iW), d = -a/W^2, masked by W != 0
-    fn = ctx.src.func(O.UNC, "SolveUnc._solve_freq_rb")
-    A = F.sym("A")
-    nrb = 0
-    for st in walk_no_nested(fn):
-        if isinstance(st, ast.Assign) and isinstance(st.targets[0], ast.Subscript) and isinstance(st.targets[0].value, ast.Name) \
-                and "a_rb" in ast.unparse(st.value) and "pvnz" in ast.unparse(st.targets[0].slice):
-            base = st.targets[0].value.id
-            which = base[0]
-            if which not in "vd":
-                continue
-            nrb += 1
-            ev = Evaluator(env={"a_rb": A, "freqw": W, "freqw2": W * W}, src=ctx.src)
-            val = ev.ev(st.value)
-            want = A / (F.I * W) if which == "v" else -A / (W * W)
-            if is_unknown(val):
-                ctx.error(f"_solve_freq_rb: {which}", st, repr(val))
-                continue
-            ok = val.equals(want)
-            ctx.check(ok, f"_solve_freq_rb: rigid-body {which} = a {'/(i W)' if which == 'v' else '* (-1/W^2)'}", st, None if ok else repr(val))
-            # masked by pvnz on both sides
-            ok = "[pvnz]" in ast.unparse(st.value) and "a_rb[:, pvnz]" in ast.unparse(st.value)
-            ctx.check(ok, f"_solve_freq_rb: the {which} write is restricted to non-zero frequencies on both sides", st)
-            # the value reaches the solution array on the rb rows, and only under the option that names it
-            if base != which:
-                fin = [s2 for s2 in walk_no_nested(fn) if isinstance(s2, ast.Assign) and ast.unparse(s2.targets[0]).replace(" ", "") == f"{which}[rb]"
-                       and ast.unparse(s2.value) == base]
-                zero = [s2 for s2 in walk_no_nested(fn) if isinstance(s2, ast.Assign) and ast.unparse(s2.targets[0]) == base
-                        and "np.zeros" in ast.unparse(s2.value)]
-                ok = len(fin) == 1 and len(zero) == 1
-                ctx.check(ok, f"_solve_freq_rb: `{base}` starts as zeros (0 Hz entries stay zero) and is stored to {which}[rb]", st)
-    ctx.check(nrb == 2, "_solve_freq_rb: rigid-body v and d relations bound", fn, nontrivial=False)
-    pv = [s for s in walk_no_nested(fn) if isinstance(s, ast.Assign) and ast.unparse(s.targets[0]) == "pvnz"]
-    ok = bool(pv) and ast.unparse(pv[0].value).replace(" ", "") == "freqw!=0"
-    ctx.check(ok, "_solve_freq_rb: pvnz = (freqw != 0)", pv[0] if pv else fn)
-    # caller passes freqw2 = freqw**2, freqw = 2 pi freq
-    for q in ("SolveUnc._solve_freq_unc", "SolveUnc._solve_freq_coup"):
-        f2 = ctx.src.func(O.UNC, q)
-        ev = Evaluator(env={"freq": F.sym("freq")}, src=ctx.src)
-        for s2 in f2.body:
-            if isinstance(s2, ast.Assign) and isinstance(s2.targets[0], ast.Name) and s2.targets[0].id in ("freqw", "freqw2"):
-                ev.stmt(s2)
-        fw, fw2 = ev.env.get("freqw"), ev.env.get("freqw2")
-        ok = fw is not None and fw2 is not None and not is_unknown(fw) and not is_unknown(fw2) and fw.equals(TWO_PI_F) and fw2.equals(TWO_PI_F * TWO_PI_F)
-        ctx.check(ok, f"{q}: freqw = 2 pi freq, freqw2 = freqw^2", f2)
-        calls = [n for n in walk_no_nested(f2) if isinstance(n, ast.Call) and dotted(n.func) == "self._solve_freq_rb"]
-        unc_flag = "True" if q.endswith("unc") else "False"
-        ok = len(calls) == 1 and [ast.unparse(a) for a in calls[0].args] == ["d", "v", "a", "force", "freqw", "freqw2", "incrb", unc_flag]
-        ctx.check(ok, f"{q}: calls _solve_freq_rb(d, v, a, force, freqw, freqw2, incrb, {unc_flag})", calls[0] if calls else f2)
+    def problems(self):
+        """what makes the trace unusable: tests that could not be decided, the result arrays not found"""
+        out = []
+        for t, f in self.trace.undecided:
+            out.append((t, f"{self.label}: the test `{ast.unparse(t)}` in {f} cannot be decided in this configuration"))
+        for x in "dva":
+            if x not in self.trace.idents:
+                out.append((self.fn, f"{self.label}: no result array `{x}` reaches the solver"))
+        return out
+
+    def part(self, ix):
+        """the partition an index value selects out of the full equation set: 'RF' | 'RB' | 'EL' | 'K' | None (whole array: 'ALL')"""
+        if ix is None:
+            return "ALL"
+        if is_unknown(ix):
+            return None
+        t = self.typer.ty(ix)
+        if t is None:
+            u = unfn(ix)
+            if u is not None and u[0] == "tuple":
+                parts = [a for a in u[1] if not isinstance(a, str)]
+                t = self.typer.ty(parts[0]) if parts else None
+        if isinstance(t, Idx) and t.dom == "N":
+            return t.cod
+        return None
+
+    def cells(self, ident, parts=None):
+        out = []
+        for c in self.trace.cells_of(ident):
+            p = self.part(c[1])
+            if parts is None or p in parts:
+                out.append((p,) + tuple(c))
+        return out      # (partition, ident, index, value, node, clock)
 
 
-def _dominating_tests(node):
-    out = []
-    n = node
-    for a in ancestors(node):
-        if isinstance(a, ast.If):
-            inbody = any(n is x or any(n is y for y in ast.walk(x)) for x in a.body)
-            out.append((ast.unparse(a.test).replace(" ", "").replace("'", '"').replace("(", "").replace(")", ""), inbody))
-        n = a if False else n
+def _run(ctx, famkey, m_none, extra=None, tag=""):
+    cache = ctx.__dict__.setdefault("_c02_runs", {})
+    k = (famkey, m_none, tuple(sorted((extra or {}).items())))
+    if k not in cache:
+        fam = next(f for f in _families() if f[0] == famkey)
+        cache[k] = Run(ctx, fam, m_none, extra, tag)
+    return cache[k]
+
+
+def _usable(ctx, run):
+    bad = run.problems()
+    for node, msg in bad:
+        ctx.error(msg, node)
+    return not bad
+
+
+DYN = ("EL", "K")
+
+
+def _check_once(ctx, ok, text, node, detail=None, key=None, tag=None):
+    """ctx.check, but one source statement that fails the same obligation in several configurations is reported once"""
+    if not ok:
+        seen = ctx.__dict__.setdefault("_c02_failed", set())
+        k = (ctx.rule, id(node), tag)
+        if k in seen:
+            return ok
+        seen.add(k)
+    ctx.check(ok, text, node, detail, key=key)
+    return ok
+
+
+def _zero(v):
+    return v is not None and not is_unknown(v) and not isinstance(v, tuple) and need(v).is_zero()
+
+
+def _eq(a, b):
+    if a is None or b is None or is_unknown(a) or is_unknown(b) or isinstance(a, tuple) or isinstance(b, tuple):
+        return False
+    try:
+        return need(a).equals(need(b))
+    except Unsupported:
+        return False
+
+
+# ------------------------------------------------------------------------------------------------ R1
+def r1_dynamic_stiffness(ctx):
+    b, k, m = F.sym("self.b"), F.sym("self.k"), F.sym("self.m")
+    for fam in _families():
+        for m_none in (True, False):
+            run = _run(ctx, fam[0], m_none)
+            if not _usable(ctx, run):
+                continue
+            cs = run.cells("d", DYN)
+            if not cs:
+                ctx.error(f"{run.label}: no store into the dynamic (elastic / non-rf) rows of d found", run.fn)
+                continue
+            p, _, ix, val, node, _ = cs[-1]
+            if is_unknown(val) or isinstance(val, tuple):
+                ctx.error(f"{run.label}: displacement formula", node, repr(val))
+                continue
+            try:
+                V = S.erase_idx(val)
+                mm = F.const(1) if m_none else m
+                H = I * W * b + k - W * W * mm
+                if run.family == "su-coup":
+                    lam, urd, uriv = F.sym("self.pc.lam"), F.sym("self.pc.ur_d"), F.sym("self.pc.ur_inv_v")
+                    # modal path: the response of mode j is (row j of ur_inv_v M^-1 F) / (i W - lambda_j), recombined with the displacement rows of ur
+                    Q = V * (I * W - lam)
+                    ok = Q.diff("freq").is_zero() and not Q.is_zero()      # no gcd in the algebra: d/dfreq = 0 by cross-multiplication
+                    ctx.check(ok, f"{run.label}: the only frequency dependence of the modal response is the denominator i W - lambda with W = 2 pi freq", node,
+                              None if ok else {"d * (i W - lambda)": repr(Q)})
+                    imf = FORCE if m_none else F.fn("lu_solve", F.sym("self.invm"), FORCE)
+                    want = urd * (uriv * imf) / (I * W - lam)
+                    ok = V.equals(want)
+                    ctx.check(ok, f"{run.label}: d = ur_d (ur_inv_v M^-1 F / (i W - lambda))  (displacement rows of the right eigenvectors, velocity "
+                                  "columns of the inverse, mass-normalised force)", node, None if ok else {"d": repr(V), "want": repr(want)})
+                elif run.family == "fd-coup":
+                    u = unfn(V)
+                    if u is None or u[0] != "solve":
+                        ctx.error(f"{run.label}: the displacement is not the solution of one linear system per frequency", node, repr(V))
+                        continue
+                    Hi, rhs = u[1]
+                    ok = Hi.equals(H) and rhs.equals(FORCE)
+                    ctx.check(ok, f"{run.label}: d solves (i W b + k - W^2 m) d = F with W = 2 pi freq", node,
+                              None if ok else {"matrix": repr(Hi), "want": repr(H), "rhs": repr(rhs)})
+                else:
+                    ok = (V * H).equals(FORCE)
+                    ctx.check(ok, f"{run.label}: d = F / (i W b + k - W^2 m) with W = 2 pi freq", node,
+                              None if ok else {"F/d": repr(FORCE / V) if not V.is_zero() else "d = 0", "want": repr(H)})
+            except Unsupported as e:
+                ctx.error(f"{run.label}: normal form", node, str(e))
+    # the two solvers agree on uncoupled equations: same per-equation formula
+    for m_none in (True, False):
+        a, c = _run(ctx, "su-real", m_none), _run(ctx, "fd-unc", m_none)
+        ca, cc = a.cells("d", DYN), c.cells("d", DYN)
+        if ca and cc and not a.problems() and not c.problems():
+            ok = _eq(S.erase_idx(ca[-1][3]), S.erase_idx(cc[-1][3]))
+            ctx.check(ok, f"SolveUnc.fsolve and FreqDirect.fsolve use the same per-equation formula on uncoupled equations (m {'None' if m_none else 'given'})",
+                      ca[-1][4], None if ok else {"SolveUnc": repr(ca[-1][3]), "FreqDirect": repr(cc[-1][3])})
+
+
+# ------------------------------------------------------------------------------------------------ R2
+def _d_candidates(run, ix, before):
+    """what `d` on the rows `ix` can be written as: the read-back d[ix], or the value last stored there"""
+    d_id = F.sym("d")
+    out = [d_id if ix is None else F.fn("idx", d_id, ix)]
+    for c in run.trace.cells_of("d"):
+        if c[4] < before and ((c[1] is None and ix is None) or (c[1] is not None and ix is not None and not is_unknown(c[1]) and _eq(c[1], ix))):
+            if not is_unknown(c[2]) and not isinstance(c[2], tuple):
+                out.append(c[2])
     return out
 
 
+def _freq_mask(ctx, run, M, node, which):
+    """the frequency mask of a rigid-body write must be `W != 0`: one obligation"""
+    u = unfn(M) if M is not None and not is_unknown(M) else None
+    op, x = None, None
+    if u is not None and u[0] in ("invert", "not") and not isinstance(u[1][0], str):
+        u2 = unfn(u[1][0])
+        if u2 is not None and u2[0] == "cmp:Eq":
+            u = ("cmp:NotEq", u2[1])
+    if u is not None and u[0].startswith("cmp:") and len(u[1]) == 2:
+        a, c = u[1]
+        if c.is_const() and c.const_value() == 0:
+            op, x = u[0][4:], a
+        elif a.is_const() and a.const_value() == 0:
+            op, x = {"Gt": "Lt", "Lt": "Gt", "GtE": "LtE", "LtE": "GtE"}.get(u[0][4:], u[0][4:]), c
+    if op is None:
+        ctx.error(f"{run.label}: the rigid-body {which} is written under a frequency selection the rule cannot read", node, repr(M))
+        return
+    try:
+        xe = S.erase_idx(x)
+        prop = not xe.is_zero() and any(not (xe / (FREQ ** n)).depends_on("freq") for n in (1, 2))
+    except Unsupported:
+        prop = False
+    if not prop:
+        ctx.error(f"{run.label}: the rigid-body {which} is written under a selection that is not a comparison of the frequency with zero", node, repr(M))
+        return
+    ok = op == "NotEq"
+    _check_once(ctx, ok, f"{run.label}: the rigid-body {which} is filled at every frequency except 0 Hz (selection `W != 0`)", node,
+                None if ok else {"selection": repr(M), "consequence": "frequencies that are excluded without being zero keep a zero response although a = F/m is returned there"},
+                key=f"C02-R2|{run.family}|{run.m_none}|rb {which} frequency selection", tag="mask")
+
+
+def r2_derivative_relations(ctx):
+    for fam in _families():
+        for m_none in (True, False):
+            run = _run(ctx, fam[0], m_none)
+            if not _usable(ctx, run):
+                continue
+            tr = run.trace
+            dparts = []
+            for p, _, ix, val, node, clk in run.cells("d", ("RF",) + DYN):
+                if not any(_eq(ix, j) for _, j in dparts):
+                    dparts.append((p, ix))
+            if not dparts:
+                ctx.error(f"{run.label}: no displacement store on the rf / dynamic rows", run.fn)
+                continue
+            for which, factor, txt in (("v", I * W, "v = i W d"), ("a", -W * W, "a = -W^2 d")):
+                for p, ix in dparts:
+                    dclk = max(d[4] for d in tr.cells_of("d") if d[1] is not None and not is_unknown(d[1]) and _eq(d[1], ix))
+                    cs = [c for c in tr.cells_of(which) if c[1] is not None and not is_unknown(c[1]) and _eq(c[1], ix)]
+                    if not cs:
+                        # a store on the whole array after the displacement of these rows is known covers them
+                        cs = [c for c in tr.cells_of(which) if c[1] is None and c[4] > dclk]
+                    if not cs:
+                        ctx.fail(f"{run.label}: `{which}` is derived from `d` on the rows `{S.sym_name(ix) or repr(ix)}`", run.fn,
+                                 f"d is stored on these rows but no store of {which} on the same rows is reached (it stays zero)",
+                                 key=f"C02-R2|{run.family}|{run.m_none}|{which} missing on {p}")
+                        continue
+                    c = cs[-1]
+                    val = c[2]
+                    if is_unknown(val) or isinstance(val, tuple):
+                        ctx.error(f"{run.label}: {txt}", c[3], repr(val))
+                        continue
+                    ok = any(_eq(val, factor * D) for D in _d_candidates(run, c[1], c[4]))
+                    _check_once(ctx, ok, f"{run.label}: {txt} on the rows `{S.sym_name(ix) or repr(ix)}` ({'residual-flexibility' if p == 'RF' else 'dynamic'} equations), "
+                                    "from the displacement stored on the same rows", c[3], None if ok else {which: repr(val)}, tag=which)
+            if run.solver != "SolveUnc":
+                continue
+            # ---- rigid-body rows: the acceleration is primary; v = a / (i W), d = -a / W^2 wherever W != 0, zero at 0 Hz
+            acs = run.cells("a", ("RB",))
+            if not acs or is_unknown(acs[-1][3]):
+                ctx.error(f"{run.label}: rigid-body acceleration store", run.fn)
+                continue
+            A = acs[-1][3]
+            sa = S.sym_name(A)
+            if sa is not None and sa in tr.idents and len(tr.cells_of(sa)) == 1 and tr.cells_of(sa)[0][1] is None:
+                A = tr.cells_of(sa)[0][2]
+            try:
+                Ae = S.erase_idx(A)
+            except Unsupported as e:
+                ctx.error(f"{run.label}: rigid-body acceleration", acs[-1][4], str(e))
+                continue
+            for which, want, txt in (("v", Ae / (I * W), "v = a / (i W)"), ("d", -Ae / (W * W), "d = -a / W^2")):
+                cs = run.cells(which, ("RB",))
+                if not cs:
+                    ctx.error(f"{run.label}: rigid-body {which} store", run.fn)
+                    continue
+                _, _, ix, val, node, clk = cs[-1]
+                B = S.sym_name(val) if not is_unknown(val) and not isinstance(val, tuple) else None
+                if B is None or B not in tr.idents:
+                    ctx.error(f"{run.label}: the rigid-body {which} is not assembled in an array of its own", node, repr(val))
+                    continue
+                fills = [c for c in tr.cells_of(B) if c[4] < clk]
+                if len(fills) != 1 or is_unknown(fills[0][2]) or isinstance(fills[0][2], tuple) or fills[0][1] is None or is_unknown(fills[0][1]):
+                    ctx.error(f"{run.label}: the rigid-body {which} array is filled in a way the rule cannot read", node, [repr(c[2]) for c in fills])
+                    continue
+                f0 = fills[0]
+                try:
+                    ok = S.erase_idx(f0[2]).equals(want)
+                except Unsupported as e:
+                    ctx.error(f"{run.label}: rigid-body {which}", f0[3], str(e))
+                    continue
+                ctx.check(ok, f"{run.label}: rigid-body {txt} (from the acceleration stored on the same rows)", f0[3], None if ok else {which: repr(f0[2]), "a": repr(A)})
+                _freq_mask(ctx, run, f0[1], f0[3], which)
+                ok = _zero(tr.init.get(B))
+                ctx.check(ok, f"{run.label}: the rigid-body {which} starts as zeros, so the 0 Hz entries stay zero", node, None if ok else repr(tr.init.get(B)))
+
+
+# ------------------------------------------------------------------------------------------------ R3
+_LETTERS = ("d", "v", "a")
+
+
+def _incrb_table(present):
+    t = {f'"{x}" in incrb': (x in present) for x in _LETTERS}
+    t["incrb"] = bool(present)
+    return t
+
+
+def _rb_state(run, letter):
+    """what the configuration leaves in the rigid-body rows of one result array: ('filled', node) | ('zero', node) | ('untouched', None)
+    The rb rows are also part of the non-rf rows: a later store on those (FreqDirect solves all non-rf equations at once) fills them."""
+    last = None
+    for p, _, ix, val, node, clk in run.cells(letter, ("RB", "K", "ALL")):
+        last = (p, val, node)
+    if last is None:
+        return "untouched", None
+    p, val, node = last
+    if _zero(val):
+        return "zero", node
+    return "filled", node
+
+
 def r3_option_gating(ctx):
-    fn = ctx.src.func(O.UNC, "SolveUnc._solve_freq_rb")
-    n = 0
-    for st in walk_no_nested(fn):
-        if isinstance(st, ast.Assign) and isinstance(st.targets[0], ast.Subscript) and isinstance(st.targets[0].value, ast.Name) \
-                and st.targets[0].value.id in "dva" and "rb" in ast.unparse(st.targets[0].slice):
-            letter = st.targets[0].value.id
-            doms = _dominating_tests(st)
-            ok = (f'"{letter}"inincrb', True) in doms
-            n += 1
-            ctx.check(ok, f"_solve_freq_rb: the rigid-body `{letter}` store is dominated by `\"{letter}\" in incrb`", st, doms)
-    ctx.check(n == 3, "_solve_freq_rb: three gated rigid-body stores (d, v, a)", fn, nontrivial=False)
-    top = [s for s in fn.body if isinstance(s, ast.If)]
-    ok = bool(top) and ast.unparse(top[0].test).replace(" ", "") == "self.rbsizeandincrb"
-    ctx.check(ok, "_solve_freq_rb: skipped entirely when there are no rb modes or incrb is empty", top[0] if top else fn)
-    # FreqDirect: zeroes x[self.rb] under `"x" not in incrb`
-    fn = ctx.src.func(O.FD, "FreqDirect.fsolve")
-    n = 0
-    for st in walk_no_nested(fn):
-        if isinstance(st, ast.Assign) and isinstance(st.targets[0], ast.Subscript) and ast.unparse(st.targets[0].slice) == "self.rb" \
-                and isinstance(st.value, ast.Constant) and st.value.value == 0:
-            letter = ast.unparse(st.targets[0].value)
-            doms = _dominating_tests(st)
-            ok = (f'"{letter}"notinincrb', True) in doms
-            n += 1
-            ctx.check(ok, f"FreqDirect.fsolve: `{letter}[self.rb] = 0` exactly under `\"{letter}\" not in incrb`", st, doms)
-    ctx.check(n == 3, "FreqDirect.fsolve: three gated rigid-body zeroings", fn, nontrivial=False)
-    # rf: v, a stores dominated by `not rf_disp_only` (and not istime); d store is not
-    fn = ctx.src.func(O.BASE, "_BaseODE._init_dva")
-    for st in walk_no_nested(fn):
-        if isinstance(st, ast.Assign) and isinstance(st.targets[0], ast.Subscript) and ast.unparse(st.targets[0].slice) == "rf":
-            letter = ast.unparse(st.targets[0].value)
-            doms = _dominating_tests(st)
-            gated = any(t == "notistimeandnotrf_disp_only" and inb for t, inb in doms)
-            if letter == "d":
-                ctx.check(not gated, "_init_dva: the static rf displacement is computed regardless of rf_disp_only", st, doms)
-            else:
-                ctx.check(gated, f"_init_dva: rf `{letter}` is computed only when `not istime and not rf_disp_only`", st, doms)
-    # fsolve passes incrb / rf_disp_only through
-    for rel, q in ((O.UNC, "SolveUnc.fsolve"), (O.FD, "FreqDirect.fsolve")):
-        f2 = ctx.src.func(rel, q)
-        calls = [n for n in walk_no_nested(f2) if isinstance(n, ast.Call) and dotted(n.func) == "self._init_dva"]
-        ok = len(calls) == 1 and any(k.arg == "rf_disp_only" and ast.unparse(k.value) == "rf_disp_only" for k in calls[0].keywords) \
-            and any(k.arg == "istime" and ast.unparse(k.value) == "False" for k in calls[0].keywords) \
-            and any(k.arg == "freq" and ast.unparse(k.value) == "freq" for k in calls[0].keywords)
-        ctx.check(ok, f"{q}: _init_dva receives istime=False, freq=freq, rf_disp_only=rf_disp_only", calls[0] if calls else f2)
+    fams = {f[0]: f for f in _families()}
+    for famkey in ("su-real", "su-cplx", "su-coup", "fd-unc", "fd-coup"):
+        allin = _run(ctx, famkey, False)
+        if not _usable(ctx, allin):
+            continue
+        for x in _LETTERS:
+            st, node = _rb_state(allin, x)
+            ok = st == "filled"
+            ctx.check(ok, f"{allin.label}: with `{x}` in incrb the rigid-body rows of {x} hold the computed response", node or allin.fn, None if ok else st,
+                      key=f"C02-R3|{famkey}|{x} in incrb")
+        for x in _LETTERS:
+            present = tuple(y for y in _LETTERS if y != x)
+            run = _run(ctx, famkey, False, _incrb_table(present), tag=f"incrb = '{''.join(present)}'")
+            if not _usable(ctx, run):
+                continue
+            st, node = _rb_state(run, x)
+            ok = st in ("zero", "untouched")
+            ctx.check(ok, f"{run.label}: without `{x}` in incrb the rigid-body rows of {x} are zero", node or run.fn, None if ok else st,
+                      key=f"C02-R3|{famkey}|{x} not in incrb")
+            others = [(y, _rb_state(run, y)[0]) for y in present]
+            ok = all(s == "filled" for _, s in others)
+            ctx.check(ok, f"{run.label}: leaving `{x}` out of incrb does not remove the rigid-body rows of the other responses", run.fn, None if ok else others,
+                      key=f"C02-R3|{famkey}|{x} not in incrb: others")
+        run = _run(ctx, famkey, False, _incrb_table(()), tag="incrb = ''")
+        if _usable(ctx, run):
+            sts = [(x, _rb_state(run, x)[0]) for x in _LETTERS]
+            ok = all(s in ("zero", "untouched") for _, s in sts)
+            ctx.check(ok, f"{run.label}: with an empty incrb no rigid-body response is returned", run.fn, None if ok else sts, key=f"C02-R3|{famkey}|empty incrb")
+        # residual-flexibility rows: d always (static solution); v and a only without rf_disp_only
+        run = _run(ctx, famkey, False, {"rf_disp_only": True}, tag="rf_disp_only")
+        if _usable(ctx, run):
+            dc = [c for c in run.cells("d", ("RF",)) if not _zero(c[3])]
+            ctx.check(bool(dc), f"{run.label}: the static rf displacement is computed regardless of rf_disp_only", dc[-1][4] if dc else run.fn)
+            va = [(x, c) for x in ("v", "a") for c in run.cells(x, ("RF", "ALL")) if not _zero(c[3])]
+            ok = not va
+            ctx.check(ok, f"{run.label}: with rf_disp_only the rf rows of v and a stay zero", va[0][1][4] if va else run.fn,
+                      None if ok else [(x, repr(c[3])) for x, c in va], key=f"C02-R3|{famkey}|rf_disp_only")
+        for x in ("v", "a"):
+            cs = [c for c in allin.cells(x, ("RF",)) if not _zero(c[3])]
+            ctx.check(bool(cs), f"{allin.label}: without rf_disp_only the rf rows of {x} are derived from the static displacement", cs[-1][4] if cs else allin.fn,
+                      key=f"C02-R3|{famkey}|rf {x}")
+    # the option string reaches the solvers unchanged
+    fn = ctx.src.func(UTIL, "_process_incrb")
+    cfg = {"isinstance(incrb, str)": True}
+    tr, ev = S.run_entry(ctx, fn, cfg, S.Opts(), "_process_incrb")
+    rets = tr.returns.get(fn.name) or []
+    hard = [t for t, f in tr.undecided]
+    if hard or not rets:
+        ctx.error("_process_incrb: string form", fn, [ast.unparse(t) for t in hard])
+    else:
+        ok = _eq(rets[-1], F.sym("incrb"))
+        ctx.check(ok, "_process_incrb: the string form of incrb is handed on unchanged", fn, None if ok else repr(rets[-1]))
 
 
+# ------------------------------------------------------------------------------------------------ R4
 def r4_partition_typing(ctx):
-    U, E = O.mode_U(), O.mode_E()
-    plan = [
-        (O.UNC, "SolveUnc._solve_freq_rb", U, "mode U"), (O.UNC, "SolveUnc._solve_freq_rb", E, "mode E"),
-        (O.UNC, "SolveUnc._solve_freq_unc", U, "mode U"), (O.UNC, "SolveUnc._solve_freq_unc", E, "mode E"),
-        (O.UNC, "SolveUnc._solve_freq_coup", E, "mode E"),
-        (O.FD, "FreqDirect.fsolve", U, "mode U"),
-        (O.BASE, "_BaseODE._init_dva", U, "mode U"),
-    ]
-    for rel, q, attrs, label in plan:
-        attrs = dict(attrs)
-        if q.endswith("_solve_freq_rb") and label == "mode E":
-            # in mode E the `unc` flag can be either (complex diagonal systems are uncoupled but go through get_su_eig)
-            pass
-        cond = None
-        if q.endswith("_solve_freq_rb"):
-            # `unc` is a parameter here: the caller passes True only from _solve_freq_unc
-            cond = {"self.systypeisfloat": label == "mode U"}
-        O.type_function(ctx, rel, q, attrs, label, rule="C02-R4", cond=cond)
+    n = 0
+    for fam in _families():
+        for m_none in (True, False):
+            run = _run(ctx, fam[0], m_none)
+            if not _usable(ctx, run):
+                continue
+            T = ValueTyper(run.typer.table, run.trace, run.label)
+            for ident, ix, val, node, clk in run.trace.cells:
+                T.check_cell(ident, ix, val, node)
+            for kind, ok, text, detail, node in T.checks:
+                n += 1
+                _check_once(ctx, ok, f"{run.label}: {kind}: `{text}` index / operand spaces agree", node, detail,
+                            key=f"C02-R4|{run.family}|{'m None' if m_none else 'm given'}|{kind}|{text[:90]}", tag=(kind, text))
+    ctx.check(n >= 30, f"partition typing bound to {n} operations on the evaluated frequency-domain paths", O.UNC + ":1", nontrivial=False)
+
+
+# ------------------------------------------------------------------------------------------------ R5
+DRM = F.sym("<drm>")           # the generic entry of drmlist
+
+
+class _PsdConfig(S.Config):
+    """solvepsd: which of the four recovery matrices of the generic drmlist entry are present (not None)"""
+
+    def __init__(self, table, present):
+        super().__init__(table)
+        self.present = set(present)
+
+    def truth(self, v):
+        u = unfn(v) if v is not None and not is_unknown(v) and not isinstance(v, tuple) else None
+        if u is not None and u[0] in ("cmp:Is", "cmp:IsNot", "cmp:Eq", "cmp:NotEq") and len(u[1]) == 2 and not any(isinstance(a, str) for a in u[1]):
+            for x, y in (u[1], u[1][::-1]):
+                if S.sym_name(y) == "None":
+                    ux = unfn(x)
+                    if ux is not None and ux[0] == "idx" and _eq(ux[1][0], DRM) and ux[1][1].is_const():
+                        there = int(ux[1][1].const_value()) in self.present
+                        return (not there) if u[0] in ("cmp:Is", "cmp:Eq") else there
+        if u is not None and u[0] in ("call:.any", "call:np.any") and len(u[1]) == 1:
+            return True          # the generic force has a PSD and a shape that do not vanish identically
+        return super().truth(v)
+
+
+def _psd_opts(psd_id=None, pp=None):
+    """the generic entry of drmlist is DRM however it is reached (loop target, enumerate, drmlist[j]); for the area formula the generic
+    entry of the psd list is the symbolic 4-point row `pp`"""
+    def elem(itv):
+        n = S.sym_name(itv)
+        if n == "drmlist":
+            return DRM
+        if psd_id is not None and n == psd_id:
+            return pp
+        return NotImplemented
+
+    def load(ev, base, ix):
+        n = S.sym_name(base) if not isinstance(base, tuple) else None
+        if ix is not None and n == "drmlist":
+            return DRM
+        if ix is not None and psd_id is not None and n == psd_id:
+            return pp
+        return NotImplemented
+
+    def atleast(ev, node):
+        if len(node.args) > 1 and not node.keywords:
+            return tuple(ev.ev(a) for a in node.args)
+        return NotImplemented
+    return S.Opts(models={"np.atleast_2d": atleast, "np.atleast_1d": atleast}, elem_hook=elem, load_hook=load)
+
+
+_PSD_TABLE = {"rbduf != 1.0": False, "elduf != 1.0": False}
+
+
+def _psd_run(ctx, fn, present, env=None, opts=None):
+    cfg = _PsdConfig(_PSD_TABLE, present)
+    ev = S.PathEval(fn, ctx, cfg, opts or _psd_opts(), env=env)
+    ev.run(fn.body)
+    return ev.trace
 
 
 def r5_solvepsd(ctx):
     fn = ctx.src.func(UTIL, "solvepsd")
-    # tuple position <-> solution attribute
-    loops = [n for n in walk_no_nested(fn) if isinstance(n, ast.For) and "drmlist" in ast.unparse(n.iter)]
-    if len(loops) != 1:
-        raise AnchorError("solvepsd: drmlist loop")
-    lp = loops[0]
-    tup = lp.target.elts[1]
-    names = [e.id for e in tup.elts]
-    ctx.check(len(names) == 4, "solvepsd: each drmlist entry unpacks to four matrices (a, v, d, f)", lp, names, nontrivial=False)
-    want_attr = dict(zip(names, ("sol.a", "sol.v", "sol.d", None)))
-    A, V, D = F.sym("sol_a"), F.sym("sol_v"), F.sym("sol_d")
-    env = {"sol.a": A, "sol.v": V, "sol.d": D, "unitforce": F.const(1)}
-    for nm in names:
-        env[nm] = F.sym(nm)
-    ev = Evaluator(env=env, src=ctx.src, cond=lambda t, ev: True if "isnotNone" in utext(t) else None)
-    body = [s for s in lp.body]
-    ev.run(body[:-1] if isinstance(body[-1], ast.AugAssign) else body)
-    frf = ev.env.get("frf")
-    if frf is None or is_unknown(frf):
-        ctx.error("solvepsd: frf", lp, repr(frf))
-    else:
-        want = F.sym(names[0]) * A + F.sym(names[1]) * V + F.sym(names[2]) * D + F.sym(names[3])
-        ok = frf.equals(want)
-        ctx.check(ok, f"solvepsd: frf = {names[0]}*a + {names[1]}*v + {names[2]}*d + {names[3]}[:, i]*1 (tuple position matches solution attribute)",
-                  lp, None if ok else repr(frf))
-    acc = [s for s in lp.body if isinstance(s, ast.AugAssign)]
-    ok = len(acc) == 1 and isinstance(acc[0].op, ast.Add) and ast.unparse(acc[0].target) == "psd[j]" \
-        and ast.unparse(acc[0].value).replace(" ", "") in ("forcepsd[i]*abs(frf)**2", "abs(frf)**2*forcepsd[i]")
-    ctx.check(ok, "solvepsd: psd[j] accumulates forcepsd[i] * |frf|^2 over the forces", acc[0] if acc else lp)
-    # each drm guarded by its own `is not None`
-    for st in lp.body:
-        if isinstance(st, ast.If):
-            t = ast.unparse(st.test).replace(" ", "")
-            nm = t.replace("isnotNone", "")
-            inner = ast.unparse(st.body[0]) if st.body else ""
-            ok = nm in names and nm in inner and (want_attr[nm] is None or want_attr[nm] in inner)
-            ctx.check(ok, f"solvepsd: `{nm}` multiplies {want_attr.get(nm) or 'the unit force'} under its own None-check", st)
-    # the unit FRF: genforce = t_frc[:, i:i+1] @ unitforce ; fsolve(genforce, freq)
-    outer = [n for n in fn.body if isinstance(n, ast.For) and ast.unparse(n.iter).replace(" ", "") == "range(rpsd)"]
-    ok = bool(outer) and any(utext(s) == "genforce=t_frc[:,i:i+1]@unitforce" for s in outer[0].body) \
-        and any(utext(s) == "sol=fs.fsolve(genforce,freq,**kwargs)" for s in outer[0].body)
-    ctx.check(ok, "solvepsd: one unit-amplitude FRF per force column (t_frc[:, i] at every frequency)", outer[0] if outer else fn)
-    # rms^2 = trapezoidal area of the PSD over the frequency vector: evaluated on a generic 4-point grid
-    # (symbolic f0..f3, p0..p3), so any algebraically equivalent formulation is accepted
+    tr = _psd_run(ctx, fn, (0, 1, 2, 3))
+    for t, f in tr.undecided:
+        ctx.error(f"solvepsd: the test `{ast.unparse(t)}` in {f} cannot be decided", t)
+    if tr.undecided:
+        return
+    rets = tr.returns.get(fn.name) or []
+    if not rets or not isinstance(rets[-1], tuple) or len(rets[-1]) != 2 or any(S.sym_name(x) not in tr.idents for x in rets[-1]):
+        ctx.error("solvepsd: returns (rms, psd), two lists filled per recovery entry", fn, repr(rets[-1]) if rets else None)
+        return
+    rms_id, psd_id = (S.sym_name(x) for x in rets[-1])
+    # ---- the unit frequency response of one force
+    calls = [c for c in tr.calls if c[0].endswith(".fsolve") or c[0] == "fsolve"]
+    if len(calls) != 1 or len(calls[0][1]) < 2:
+        ctx.error("solvepsd: one call of the solver's fsolve per force", fn, [c[0] for c in calls])
+        return
+    gen, fq = calls[0][1][0], calls[0][1][1]
+    fi = None
+    for s in sorted(tr.loop_syms):
+        if _eq(gen, F.fn("idx", F.sym("t_frc"), F.sym(s))):
+            fi = F.sym(s)
+    ok = fi is not None and _eq(fq, FREQ)
+    ctx.check(ok, "solvepsd: one unit-amplitude FRF per force: fsolve(t_frc[:, i] at every frequency, freq)", calls[0][3], None if ok else {"force": repr(gen), "freq": repr(fq)})
+    if fi is None:
+        return
+    sol = None
+    for c in tr.cells_of(psd_id):
+        for args in S.atoms_of(c[2], "attr:a") + S.atoms_of(c[2], "attr:v") + S.atoms_of(c[2], "attr:d"):
+            sol = args[0]
+    if sol is None:
+        ctx.error("solvepsd: the recovered response does not use the solution of the unit force", fn)
+        return
+    us = unfn(sol)
+    ok = us is not None and us[0].startswith("call:") and us[0].endswith("fsolve")
+    ctx.check(ok, "solvepsd: the response recovered is the solution returned for that unit force", calls[0][3], None if ok else repr(sol), nontrivial=False)
+    A, V, D = (F.fn("attr:" + x, sol) for x in "avd")
+    terms = [F.fn("idx", DRM, F.const(0)) * A, F.fn("idx", DRM, F.const(1)) * V, F.fn("idx", DRM, F.const(2)) * D,
+             F.fn("idx", F.fn("idx", DRM, F.const(3)), fi)]
+    names = ("drma @ sol.a", "drmv @ sol.v", "drmd @ sol.d", "drmf[:, i]")
+
+    def accumulated(trace, pid):
+        """the increment of psd[j] in one (force, entry) iteration"""
+        cs = trace.cells_of(pid)
+        if len(cs) != 1 or is_unknown(cs[0][2]) or isinstance(cs[0][2], tuple) or cs[0][1] is None or is_unknown(cs[0][1]):
+            return None, (cs[0][3] if cs else fn)
+        c = cs[0]
+        return need(c[2]) - F.fn("idx", F.sym(pid), c[1]), c[3]
+
+    inc, node = accumulated(tr, psd_id)
+    if inc is None:
+        ctx.error("solvepsd: one accumulation into psd[j] per (force, recovery entry)", node)
+        return
+    frf = sum(terms[1:], terms[0])
+    want = F.fn("idx", F.sym("forcepsd"), fi) * F.fn("abs", frf) ** 2
+    ok = _eq(inc, want)
+    ctx.check(ok, "solvepsd: psd[j] accumulates forcepsd[i] * |drma a + drmv v + drmd d + drmf[:, i]|^2 over the forces (tuple position matches solution attribute, "
+                  "the direct term and the PSD belong to the same force)", node, None if ok else {"increment": repr(inc), "want": repr(want)})
+    # ---- a recovery matrix that is None drops exactly its own term
+    for k in range(4):
+        present = tuple(j for j in range(4) if j != k)
+        t2 = _psd_run(ctx, fn, present)
+        r2 = t2.returns.get(fn.name) or []
+        pid = S.sym_name(r2[-1][1]) if r2 and isinstance(r2[-1], tuple) and len(r2[-1]) == 2 else None
+        inc2, node2 = accumulated(t2, pid) if pid else (None, fn)
+        if inc2 is None or t2.undecided:
+            ctx.error(f"solvepsd: accumulation when entry {k} of a drmlist tuple is None", node2)
+            continue
+        frf2 = sum((terms[j] for j in present[1:]), terms[present[0]])
+        want2 = F.fn("idx", F.sym("forcepsd"), fi) * F.fn("abs", frf2) ** 2
+        ok = _eq(inc2, want2)
+        ctx.check(ok, f"solvepsd: a None in position {k} of a drmlist entry drops exactly the term `{names[k]}`", node2, None if ok else {"increment": repr(inc2), "want": repr(want2)})
+    # ---- rms^2 = trapezoidal area of the PSD over the frequency vector: evaluated on a generic 4-point grid (symbolic f0..f3, p0..p3)
     NF = 4
     fr = tuple(F.sym(f"f{i}") for i in range(NF))
     pp = tuple(F.sym(f"p{i}") for i in range(NF))
 
-    def sub(node, ev):
-        if utext(node) == "psd[j]":
-            return pp
-        return NotImplemented
-
-    ev = Evaluator(env={"freq": fr}, src=ctx.src, subscript=sub)
-    loops = [n for n in fn.body if isinstance(n, ast.For)]
-    if not loops:
-        raise AnchorError("solvepsd: loops")
-    tail = fn.body[fn.body.index(loops[0]) + 1:]
-    for s_ in tail:
-        if isinstance(s_, ast.For):
-            ev.run(s_.body)
-        elif not isinstance(s_, ast.Return):
-            ev.stmt(s_)
-    st = [x for x in ev.stores if x[0] == "rms"]
-    if not st or is_unknown(st[-1][2]) or isinstance(st[-1][2], tuple):
-        ctx.error("solvepsd: rms formula", tail[0] if tail else fn, repr(st[-1][2]) if st else None)
+    t3 = _psd_run(ctx, fn, (0, 1, 2, 3), env={"freq": fr}, opts=_psd_opts(psd_id, pp))
+    r3 = t3.returns.get(fn.name) or []
+    rid = S.sym_name(r3[-1][0]) if r3 and isinstance(r3[-1], tuple) and len(r3[-1]) == 2 else None
+    cs = t3.cells_of(rid) if rid else []
+    if not cs or is_unknown(cs[-1][2]) or isinstance(cs[-1][2], tuple):
+        ctx.error("solvepsd: rms formula", cs[-1][3] if cs else fn, repr(cs[-1][2]) if cs else None)
     else:
-        val = st[-1][2]
+        val = need(cs[-1][2])
         want = F.const(0)
         for i in range(NF - 1):
             want = want + (fr[i + 1] - fr[i]) * (pp[i] + pp[i + 1]) / 2
-        ok = (val * val).equals(want)
-        ctx.check(ok, "solvepsd: rms^2 = sum_k (f_{k+1} - f_k)(p_k + p_{k+1})/2 on a generic non-uniform grid (trapezoidal area)", st[-1][3],
-                  None if ok else {"rms^2": repr(val * val), "trapezoid": repr(want)})
+        try:
+            ok = (val * val).equals(want)
+            detail = None if ok else {"rms^2": repr(val * val), "trapezoid": repr(want)}
+        except Unsupported as e:
+            ok, detail = False, str(e)
+        ctx.check(ok, "solvepsd: rms^2 = sum_k (f_{k+1} - f_k)(p_k + p_{k+1})/2 on a generic non-uniform grid (trapezoidal area)", cs[-1][3], detail)
 
 
-
+# ------------------------------------------------------------------------------------------------ R6
 PARTITION_NAMES = {"rb", "el", "rf", "kdof", "nonrf", "_rb", "_el"}
 
 
@@ -447,6 +641,7 @@ def r6_paired_advanced_indices(ctx):
     ctx.check(n >= 1, f"paired-index rule bound to {n} subscripts", O.UNC + ":1", nontrivial=False)
 
 
+# ------------------------------------------------------------------------------------------------ R7
 def r7_every_force_counts(ctx):
     """solvepsd: the response PSD is the sum over ALL forces of PSD_i |H_i|^2, and H_i contains a direct term (drmf[:, i]) that does not pass
     through the equations of motion.  Hence no force may be skipped on the grounds that it does not load the equations: inside the loop over the
@@ -498,128 +693,165 @@ def r7_every_force_counts(ctx):
     ctx.ok("solvepsd: accumulation `psd[j] += ...` sits in the recovery-matrix loop inside the force loop", acc, nontrivial=False)
 
 
+# ------------------------------------------------------------------------------------------------ R8
 def r8_structure_assumption(ctx):
     """A structure hint given to the linear solver for the dynamic stiffness H = i W b + k - W^2 m (scipy's assume_a / sym_pos) must be
     justified by ALL matrices H is made of: it is read from the code that computes the hint (followed through attributes and methods of the
     class).  No hint (the general driver) is always right."""
-    fn = ctx.src.func(O.FD, "FreqDirect.fsolve")
-    mod = ctx.src.mod(O.FD)
-    calls = [c for c in ast.walk(fn) if isinstance(c, ast.Call) and (dotted(c.func) or "").endswith("solve") and dotted(c.func) not in ("self.fsolve",)]
+    mods = [ctx.src.mod(O.FD), ctx.src.mod(O.BASE)]
     n = 0
-    for c in calls:
-        hints = [k for k in c.keywords if k.arg in ("assume_a", "sym_pos")]
-        n += 1
-        if not hints:
-            ctx.ok(f"FreqDirect.fsolve: `{ast.unparse(c.func)}` is called without a structure assumption (general driver)", c)
+    seen_nodes = set()
+    for m_none in (True, False):
+        run = _run(ctx, "fd-coup", m_none)
+        if not _usable(ctx, run):
             continue
-        for k in hints:
-            v = k.value
-            if isinstance(v, ast.Constant) and v.value in ("gen", "general", False, None):
-                ctx.ok("FreqDirect.fsolve: explicit general driver", c)
+        calls = [c for c in run.trace.calls if c[0] in S._SOLVES and S._SOLVES[c[0]] == "solve"]
+        if not calls:
+            ctx.error(f"{run.label}: the coupled arm solves H d = F once per frequency", run.fn)
+            continue
+        for c in calls:
+            node = c[3]
+            if id(node) in seen_nodes:
                 continue
-            # follow self.<attr> to its assignments in the class and the methods they call
-            seen_funcs, names = set(), set()
-            work = [v]
-            for _ in range(6):
-                nxt = []
-                for e in work:
-                    for x in ast.walk(e):
-                        d = dotted(x) if isinstance(x, ast.Attribute) else None
-                        if d and d.startswith("self."):
-                            names.add(d)
-                            for q, f in mod.funcs.items():
-                                if q.startswith("FreqDirect.") or q.startswith("_BaseODE."):
-                                    for st in ast.walk(f):
-                                        if isinstance(st, ast.Assign) and any(dotted(t) == d for t in st.targets) and id(st) not in seen_funcs:
-                                            seen_funcs.add(id(st))
-                                            nxt.append(st.value)
-                        if isinstance(x, ast.Call) and (dotted(x.func) or "").startswith("self."):
-                            q = "FreqDirect." + dotted(x.func)[5:]
-                            f = mod.funcs.get(q)
-                            if f is not None and id(f) not in seen_funcs:
-                                seen_funcs.add(id(f))
-                                nxt.append(f)
-                work = nxt
-                if not work:
-                    break
-            need_ = {"self.b", "self.k"}
-            ok = need_ <= names
-            ctx.check(ok, "FreqDirect.fsolve: the structure assumption passed to the solver is derived from every matrix of the dynamic stiffness "
-                          "(m, b and k)", c, None if ok else {"hint": ast.unparse(v), "depends on": sorted(names),
-                                                              "consequence": "an unsymmetric damping matrix makes H unsymmetric whatever m and k are"},
-                      key="C02-R8|FreqDirect.fsolve|structure assumption ignores a matrix of H")
-    ctx.check(n >= 1, "FreqDirect.fsolve: the coupled arm solves H d = F once per frequency", fn, n, nontrivial=False)
+            seen_nodes.add(id(node))
+            n += 1
+            hints = [k for k in node.keywords if k.arg in ("assume_a", "sym_pos")]
+            if not hints:
+                ctx.ok(f"FreqDirect.fsolve: `{ast.unparse(node.func)}` is called without a structure assumption (general driver)", node)
+                continue
+            for k in hints:
+                v = k.value
+                if isinstance(v, ast.Constant) and v.value in ("gen", "general", False, None):
+                    ctx.ok("FreqDirect.fsolve: explicit general driver", node)
+                    continue
+                # follow self.<attr> to its assignments in the class (and its base) and the methods they call
+                seen, names = set(), set()
+                work = [v]
+                for _ in range(6):
+                    nxt = []
+                    for e in work:
+                        for x in ast.walk(e):
+                            d = dotted(x) if isinstance(x, ast.Attribute) else None
+                            if d and d.startswith("self."):
+                                names.add(d)
+                                for mod in mods:
+                                    for q, f in mod.funcs.items():
+                                        for st in ast.walk(f):
+                                            if isinstance(st, ast.Assign) and any(dotted(t) == d for t in st.targets) and id(st) not in seen:
+                                                seen.add(id(st))
+                                                nxt.append(st.value)
+                            if isinstance(x, ast.Call) and (dotted(x.func) or "").startswith("self."):
+                                for mod in mods:
+                                    for cls in ("FreqDirect", "_BaseODE"):
+                                        f = mod.funcs.get(f"{cls}.{dotted(x.func)[5:]}")
+                                        if f is not None and id(f) not in seen:
+                                            seen.add(id(f))
+                                            nxt.append(f)
+                    work = nxt
+                    if not work:
+                        break
+                ok = {"self.b", "self.k"} <= names
+                ctx.check(ok, "FreqDirect.fsolve: the structure assumption passed to the solver is derived from every matrix of the dynamic stiffness "
+                              "(m, b and k)", node, None if ok else {"hint": ast.unparse(v), "depends on": sorted(names),
+                                                                      "consequence": "an unsymmetric damping matrix makes H unsymmetric whatever m and k are"},
+                          key="C02-R8|FreqDirect.fsolve|structure assumption ignores a matrix of H")
+    ctx.check(n >= 1, "FreqDirect.fsolve: the coupled arm solves H d = F once per frequency", ctx.src.func(O.FD, "FreqDirect.fsolve"), n, nontrivial=False)
+
+
+# ------------------------------------------------------------------------------------------------ R9
+def _acts_when(ctx, fn, callee):
+    """(comparison value with the polarity folded in) under which `fn` reaches the call of `callee`: the function is evaluated once per
+    combination of its tests; exactly one comparison must separate the paths that act from those that do not"""
+    paths = list(S.enumerate_paths(ctx, fn, {}, S.Opts()))
+    acted = [(dec, any(c[0] == callee for c in tr.calls)) for dec, tr in paths]
+    if not any(a for _, a in acted) or all(a for _, a in acted):
+        raise AnchorError(f"{fn.name}: a guarded call of {callee}")
+    cands = {}
+    for dec, a in acted:
+        for v, b in dec:
+            cands.setdefault(S.vkey(v), v)
+    for k, v in cands.items():
+        u = unfn(v)
+        if u is None or not u[0].startswith("cmp:"):
+            continue
+        for pol in (True, False):
+            if all((dict((S.vkey(x), b) for x, b in dec).get(k) == pol) == a for dec, a in acted):
+                op = u[0][4:]
+                if not pol:
+                    op = S._NEG.get(op)
+                    if op is None:
+                        return None
+                return op, u[1][0], u[1][1], v
+    return None
 
 
 def r9_conjugate_set_guards(ctx):
     """The coupled frequency response sums over the FULL set of complex modes; the time-domain recurrence keeps one mode of each conjugate pair.
     SolveUnc._addconj restores the full set before a frequency solve, _delconj reduces it before a time solve.  The two guards must split the
     possible states into exactly two classes: `_delconj` acts when the set is full (an equality between two sizes), `_addconj` must act in every
-    other state - its guard has to be the negation of that very equality (`!=`, or the strict inequality the size invariant allows) between the
-    same two quantities.  Otherwise a half set of intermediate size (a mix of real roots and complex pairs) is left unexpanded."""
-    from .sem import Sem, unfn
+    other state - the condition under which it acts has to be the negation of that very equality (`!=`, or the strict inequality the size
+    invariant allows) between the same two quantities.  Otherwise a half set of intermediate size (a mix of real roots and complex pairs) is
+    left unexpanded.  The conditions are read off the evaluated paths (which comparison separates the paths that reach the call from those that
+    do not), so a guard clause with an early return is the same as an enclosing `if`."""
     fa = ctx.src.func(O.UNC, "SolveUnc._addconj")
     fd = ctx.src.func(O.UNC, "SolveUnc._delconj")
-
-    def guard(fn, callee):
-        for n in walk_no_nested(fn):
-            if isinstance(n, ast.If) and any(isinstance(c, ast.Call) and dotted(c.func) == callee for b in n.body for c in ast.walk(b)):
-                return n
-        raise AnchorError(f"{fn.name}: guard of the call to {callee}")
-
-    ga, gd = guard(fa, "addconj"), guard(fd, "delconj")
-    Sa, Sd = Sem(ctx, fa, run=False), Sem(ctx, fd, run=False)
-    for S, fn, g in ((Sa, fa, ga), (Sd, fd, gd)):
-        for st in fn.body:
-            if st is g:
-                break
-            S.ev.stmt(st)
-    va, vd = Sa.ev.ev(ga.test), Sd.ev.ev(gd.test)
-    ua, ud = unfn(va), unfn(vd)
-    if ua is None or ud is None or not ua[0].startswith("cmp:") or not ud[0].startswith("cmp:"):
-        ctx.error("_addconj / _delconj: guards are single comparisons", ga, [repr(va), repr(vd)])
+    ga, gd = _acts_when(ctx, fa, "addconj"), _acts_when(ctx, fd, "delconj")
+    if ga is None or gd is None:
+        ctx.error("_addconj / _delconj: each acts under a single comparison", fa if ga is None else fd)
         return
-    ok = ud[0] == "cmp:Eq"
-    ctx.check(ok, "_delconj: acts exactly when the stored set is the full set (an equality of two sizes)", gd, ud[0])
+    ok = gd[0] == "Eq"
+    ctx.check(ok, "_delconj: acts exactly when the stored set is the full set (an equality of two sizes)", fd, gd[0])
     if not ok:
         return
-    X, Y = ud[1]
-    opa, (P, Q) = ua[0], ua[1]
+    X, Y = gd[1], gd[2]
+    opa, P, Q = ga[0], ga[1], ga[2]
     same_pair = (P.equals(X) and Q.equals(Y)) or (P.equals(Y) and Q.equals(X))
-    ok = same_pair and opa in ("cmp:NotEq", "cmp:Gt", "cmp:Lt")
-    ctx.check(ok, "_addconj: acts in every state in which _delconj does not - its guard negates _delconj's equality between the same two sizes", ga,
-              None if ok else {"_addconj": repr(va), "_delconj": repr(vd),
+    ok = same_pair and opa in ("NotEq", "Gt", "Lt")
+    ctx.check(ok, "_addconj: acts in every state in which _delconj does not - its guard negates _delconj's equality between the same two sizes", fa,
+              None if ok else {"_addconj acts when": f"{opa}({P!r}, {Q!r})", "_delconj acts when": f"Eq({X!r}, {Y!r})",
                                "consequence": "a half set whose size is neither of the two tested values (real roots mixed with complex pairs) is not expanded: "
                                               "fsolve sums over half of the conjugate pairs"},
               key="C02-R9|SolveUnc._addconj|guard is not the negation of _delconj's")
+    # the coupled frequency path restores the full set before it reads the eigensolution
+    for m_none in (True, False):
+        run = _run(ctx, "su-coup", m_none)
+        if run.problems():
+            continue
+        calls = [c for c in run.trace.calls if c[0] == "self._addconj"]
+        dyn = run.cells("d", DYN)
+        ok = bool(calls) and bool(dyn) and calls[0][4] < dyn[-1][5]
+        ctx.check(ok, f"{run.label}: the full conjugate set is restored (_addconj) before the modal sum is stored", calls[0][3] if calls else run.fn)
 
 
 RULES = [
     ("C02-R6", r6_paired_advanced_indices, 2),
-    ("C02-R1", r1_dynamic_stiffness, 8),
-    ("C02-R2", r2_derivative_relations, 17),
-    ("C02-R3", r3_option_gating, 12),
+    ("C02-R1", r1_dynamic_stiffness, 12),
+    ("C02-R2", r2_derivative_relations, 60),
+    ("C02-R3", r3_option_gating, 50),
     ("C02-R4", r4_partition_typing, 30),
-    ("C02-R5", r5_solvepsd, 9),
+    ("C02-R5", r5_solvepsd, 8),
     ("C02-R7", r7_every_force_counts, 2),
     ("C02-R8", r8_structure_assumption, 2),
-    ("C02-R9", r9_conjugate_set_guards, 2),
+    ("C02-R9", r9_conjugate_set_guards, 4),
 ]
 LEVEL = "other"
-EXPLANATION = ("Static: every frequency-domain path divides by the same dynamic stiffness i W b + k - W^2 m (exact normal forms), derives v and a "
-               "from d by i W and -W^2 on the same partition, gates rigid-body / rf terms by the option that names them (dominance on the AST), "
-               "uses each partition in its own index space (E3 typing in both SolveUnc modes), and solvepsd accumulates PSD_i |H_i|^2 with the "
-               "tuple positions matching the solution attributes and takes the trapezoidal area.")
+EXPLANATION = ("Static: the public frequency-domain entry points are evaluated on symbols once per configuration (helpers followed, tests decided by value); "
+               "every path divides by the same dynamic stiffness i W b + k - W^2 m (exact normal forms), derives v and a from the stored d by i W and -W^2 "
+               "on the same rows, fills or zeroes rigid-body / rf rows exactly as incrb / rf_disp_only say, uses each partition in its own index space "
+               "(E3 typing of the evaluated values in both SolveUnc modes), and solvepsd accumulates PSD_i |H_i|^2 with the tuple positions matching the "
+               "solution attributes and takes the trapezoidal area.")
 MANIFEST = {
-    "text": "Partial claim decided statically: (R1) the denominators of SolveUnc._solve_freq_unc (m None/given), FreqDirect.fsolve uncoupled and coupled "
-            "(m None/given) all equal i W b + k - W^2 m with W = 2 pi f, and the modal path uses i W - lambda with the d-rows / v-columns of the eigenvectors; "
-            "(R2) v = i W d, a = -W^2 d on each partition, rigid-body v = a/(iW), d = -a/W^2 masked at W = 0; (R3) incrb / rf_disp_only gating by dominance; "
-            "(R4) partition-space typing of the frequency functions in both SolveUnc modes; (R5) solvepsd formula and trapezoid; (R6) paired advanced indices; (R7) every force reaches the PSD accumulation (must-pass-through in the "
+    "text": "Partial claim decided statically: (R1) the displacement stored on the dynamic rows by SolveUnc (real / complex uncoupled, m None/given) and FreqDirect "
+            "(uncoupled and coupled, m None/given) is F over / solved with i W b + k - W^2 m with W = 2 pi f, and the modal path uses i W - lambda with the d-rows / "
+            "v-columns of the eigenvectors; (R2) v = i W d, a = -W^2 d on every rf / dynamic partition from the displacement stored on the same rows, rigid-body "
+            "v = a/(iW), d = -a/W^2 filled exactly where W != 0; (R3) incrb / rf_disp_only honoured, decided by evaluating each option setting; "
+            "(R4) partition-space typing of every value stored on the frequency-domain paths in both SolveUnc modes; (R5) solvepsd formula, None entries and trapezoid; "
+            "(R6) paired advanced indices; (R7) every force reaches the PSD accumulation (must-pass-through in the "
             "force loop: only a vanishing force PSD may skip an iteration, because the direct term drmf[:, i] bypasses the equations); (R8) a structure "
-            "assumption handed to the solver of the dynamic stiffness must be derived from every matrix of H; (R9) the guards of SolveUnc._addconj / _delconj are complementary (the full conjugate set is restored "
-            "before every frequency solve unless it is already full). "
+            "assumption handed to the solver of the dynamic stiffness must be derived from every matrix of H; (R9) the conditions under which SolveUnc._addconj / "
+            "_delconj act are complementary (the full conjugate set is restored before every frequency solve unless it is already full). "
             "Not decided: accuracy of the complex-mode path, singular H, library solves.",
-    "note": "Trusted: CPython ast; verifier/e2_formula.py (commutative normal forms: matrix products are abstracted to scalar products), verifier/e3_spaces.py "
-            "with the attribute table of verifier/ode_spaces.py (read from _BaseODE, one reason per line).",
-    "technique": "static formula extraction to exact normal forms + dominance checks on the AST + partition-space type inference",
+    "note": "Trusted: CPython ast; verifier/e2_formula.py (commutative normal forms: matrix products are abstracted to scalar products), verifier/c02_sem.py "
+            "(path evaluator), verifier/c02_types.py with the attribute table of verifier/ode_spaces.py (read from _BaseODE, one reason per line).",
+    "technique": "whole-path symbolic evaluation per configuration to exact normal forms + partition-space type inference on the evaluated values",
 }
